@@ -387,6 +387,15 @@ func runC20(c *Ctx) {
 	ruleNoSharedMutableGlobals(c)
 	rulePanicUnderLock(c)
 	ruleCallbackReentrancy(c)
+	// Conn.Close is what releases the goroutines waiting on this connection: whatever closing the socket returns, it
+	// aborts an open BDAT pipe (the delivery goroutine is blocked reading it) and logs the session out
+	R.Rule("R-close-releases", "E1 must-under", "Conn.Close certainly aborts an open pipe and logs out an existing session on every path (also when closing the socket fails)", 2)
+	if f := c.A.Func("(*Conn).Close"); f != nil {
+		c.obMustUnder("abort pipe", f, []string{"pipe-abort"}, aPipeOpen)
+		c.obMustUnder("Logout", f, []string{lLogout}, aSessSet)
+		_, sm := c.Std()
+		R.Ob("(*Conn).Close/marks the connection closed on every path", c.P.Pos(f.Pos()), sm.Must(f)["st:Conn.closed=true"], "Conn.Close can return without setting closed (for example when closing the socket fails): the command loop keeps dispatching buffered commands on a connection whose session is gone")
+	}
 	c.R.Rule("R-status-fill-shape", "E1", "the command loop receives once per recipient occurrence: fillRemaining fills every recipient channel to capacity, otherwise the handler blocks forever on a channel no goroutine will write", 2)
 	ruleFillShape(c)
 
